@@ -79,6 +79,16 @@ def resets_in_stmt(st: ast.AST, cls: ClassInfo, repo: Repo, depth: int = 0) -> S
         a = _self_attr(st.target)
         if a:
             out.add(a)
+    # `del self.x` / `self.__dict__.pop("x", None)`: how a functools.cached_property value is dropped
+    if isinstance(st, ast.Delete):
+        for t in st.targets:
+            a = _self_attr(t)
+            if a:
+                out.add(a)
+    if isinstance(st, ast.Expr) and isinstance(st.value, ast.Call) and isinstance(st.value.func, ast.Attribute) and st.value.func.attr == "pop" and st.value.args and isinstance(st.value.args[0], ast.Constant):
+        recv = st.value.func.value
+        if (dotted(recv) == "self.__dict__" or (isinstance(recv, ast.Call) and dotted(recv.func) == "vars" and recv.args and dotted(recv.args[0]) == "self")) and len(st.value.args) == 2:
+            out.add(str(st.value.args[0].value))
     # helper call `self._invalidate()` whose every normal path resets
     if isinstance(st, ast.Expr) and isinstance(st.value, ast.Call) and depth < 3:
         f = st.value.func
@@ -153,8 +163,19 @@ def run(rep: Report, tier: str):
                                 caches.setdefault(n.args[1].value, []).append(f.qualname)
                         else:
                             raise AnalysisError(f"{f.qualname}: setattr(self, <non-literal>, ...) not understood")
-    for must in ("_ast", "_properties"):
-        if must not in caches:
+    # functools.cached_property stores its value in the instance dict under the property's own name: that name is a cache
+    # attribute too, reset by `del self.<name>` / `self.__dict__.pop("<name>", None)`
+    cached_props: Set[str] = set()
+    for c in classes:
+        for name, fs in c.methods.items():
+            for f in fs:
+                for d in f.node.decorator_list:
+                    dn = dotted(d) or (dotted(d.func) if isinstance(d, ast.Call) else "") or ""
+                    if dn.split(".")[-1] == "cached_property":
+                        cached_props.add(name)
+                        caches.setdefault(name, []).append(f.qualname)
+    for must, alt in (("_ast", "ast"), ("_properties", "properties")):
+        if must not in caches and alt not in cached_props:
             raise AnalysisError(f"anchor: Pickled no longer fills the cache attribute {must}")
     rep.info(f"cache attributes of Pickled: {sorted(caches)} (filled in {sorted({q for v in caches.values() for q in v})})")
     # functools caches on methods are caches nothing resets
@@ -163,7 +184,7 @@ def run(rep: Report, tier: str):
             for f in fs:
                 for d in f.node.decorator_list:
                     dn = dotted(d) or (dotted(d.func) if isinstance(d, ast.Call) else "")
-                    if dn and dn.split(".")[-1] in ("lru_cache", "cache", "cached_property"):
+                    if dn and dn.split(".")[-1] in ("lru_cache", "cache"):
                         rep.bad(
                             "C14.invalidate",
                             f.qualname,
@@ -439,6 +460,14 @@ def run(rep: Report, tier: str):
         if f is None:
             raise AnalysisError(f"Pickled.{pname} property not found")
         rets = ret_exprs(f)
+        if pname in cached_props:
+            # functools.cached_property: the getter runs once per (re)computation and must derive its value from self;
+            # the caching and the reset (`del self.<name>`) are C14.invalidate's subject
+            if rets and all(any((isinstance(a, ast.Name) and a.id == "self") or _self_attr(a) for c0 in ast.walk(r) if isinstance(c0, ast.Call) for a in c0.args) for r in rets):
+                rep.ok("C14.views", f.qualname, f"cached_property computed from the current object: {src(rets[0])}", f"{f.file}:{f.line}")
+            else:
+                rep.bad("C14.views", f.qualname, "not-from-self", f"{f.qualname} (cached_property) does not compute its value from the current object", f.file, f.line)
+            continue
         if not rets or any(not _self_attr(r, cache) for r in rets):
             rep.bad("C14.views", f.qualname, "not-from-cache", f"{f.qualname} returns {[src(r) for r in rets]}, not self.{cache}", f.file, f.line)
         else:
